@@ -12,6 +12,7 @@ import (
 	"fmt"
 	"maps"
 	"sort"
+	"strings"
 
 	"github.com/gordian-engine/gordian/tm/tmconsensus"
 )
@@ -36,6 +37,17 @@ type e2Trace struct {
 	states   map[string]struct{}
 	maxH     uint64
 	maxR     uint32
+
+	// C07 (state machine side): set only by worlds whose application rotates the validator set
+	c07 *e2C07
+}
+
+// e2C07 gives the oracle the harness's ground truth about validator sets: the set prescribed
+// for each height (a function of the height alone) and what every candidate block names.
+type e2C07 struct {
+	vsetAt   func(h uint64) tmconsensus.ValidatorSet
+	blocks   map[string]*e2Block
+	invented map[uint64]bool // heights whose committed block the harness had to invent
 }
 
 func (w *e2World) trace() *e2Trace {
@@ -45,6 +57,15 @@ func (w *e2World) trace() *e2Trace {
 		unjudged: map[string]int64{}, judged: map[string]int64{}, states: map[string]struct{}{},
 	}
 	t.pub = ed25519.PublicKey(w.fx.PrivVals[0].Val.PubKey.PubKeyBytes())
+	if w.cfg.rotate {
+		inv := map[uint64]bool{}
+		for h, c := range w.chain {
+			if c.invented {
+				inv[h] = true
+			}
+		}
+		t.c07 = &e2C07{vsetAt: w.vsetAt, blocks: w.blocks, invented: inv}
+	}
 	return t
 }
 
@@ -135,6 +156,10 @@ type e2RS struct {
 	rests       []uint64 // seqs of the points of rest reached in this round
 	left        bool
 	r5Reported  bool
+
+	firstOfInst bool            // the first round an instance entered (after a restart: resumed, not fresh)
+	shown       map[string]bool // C07: hashes of the proposed headers handed to the strategy in this round
+	c07Reported bool
 }
 
 func (rs *e2RS) lastAccepted(before uint64) *e2OView {
@@ -252,6 +277,7 @@ func (t *e2Trace) judge(wantC08, wantC12 bool) (out []e2Finding) {
 			cur = &e2RS{inst: e.Inst, hr: hr, entSeq: e.Seq, fired: map[string]uint64{}, pvAnswers: map[string]uint64{}, pcAnswers: map[string]uint64{},
 				emitted: map[string]int{}, ownPHs: map[string]bool{}}
 			rounds[[3]uint64{uint64(e.Inst), e.H, uint64(e.R)}] = cur
+			cur.firstOfInst = prevEnt == nil
 			prevEnt = cur
 
 		case e2kEntranceResp:
@@ -356,6 +382,9 @@ func (t *e2Trace) judge(wantC08, wantC12 bool) (out []e2Finding) {
 				break
 			}
 			t.judged["strategy-call."+e.Sub]++
+			if t.c07 != nil {
+				t.c07Shown(e, rounds[[3]uint64{uint64(e.Inst), e.H, uint64(e.R)}], add)
+			}
 			if e.Sub == "enter" {
 				if e.H != cur.hr.H || e.R != cur.hr.R {
 					add(e.Seq, "C08:R7:enter-round-names-other-round", "EnterRound for %d/%d while in %d/%d", e.H, e.R, cur.hr.H, cur.hr.R)
@@ -453,6 +482,20 @@ func (t *e2Trace) judge(wantC08, wantC12 bool) (out []e2Finding) {
 			}
 			if e.Sub == "proposal" {
 				rs.ownPHs[e.Hash] = true
+				if t.c07 != nil {
+					t.judged["C07.own-proposal"]++
+					if strings.Contains(e.Note, " valset=other") {
+						add(e.Seq, "C07:statemachine:own-proposal-names-other-validator-set",
+							"the state machine proposed a header at height %d whose ValidatorSet is not the set the driver returned when finalizing height %d (genesis set for the first two heights)", e.H, int64(e.H)-2)
+					}
+					if strings.Contains(e.Note, " nextvalset=other") {
+						add(e.Seq, "C07:statemachine:own-proposal-names-other-next-validator-set",
+							"the state machine proposed a header at height %d whose NextValidatorSet is not the set the driver returned when finalizing height %d", e.H, int64(e.H)-1)
+					}
+					if i := strings.Index(e.Note, " "); i >= 0 {
+						e.Note = e.Note[:i]
+					}
+				}
 			}
 			if !wantC08 {
 				break
@@ -526,6 +569,9 @@ func (t *e2Trace) judge(wantC08, wantC12 bool) (out []e2Finding) {
 			t.states[t.abstract(cur, f, armed)] = struct{}{}
 			if wantC08 {
 				t.r5Absence(cur, e, add)
+			}
+			if t.c07 != nil {
+				t.c07Withheld(cur, e, add)
 			}
 			if wantC12 {
 				t.c12Armed(cur, f, armed, e, add)
@@ -965,4 +1011,106 @@ func (t *e2Trace) judgeC02() (out []e2Finding) {
 		}
 	}
 	return out
+}
+
+// -------------------------------------------------------------------- C07 ----
+
+// c07Shown: "the set the state machine proposes and votes with at h+2 is exactly what the
+// driver returned when finalizing h" seen at the strategy boundary: every proposed header the
+// machine lets its consensus strategy vote on must name the prescribed validator set of its
+// height and the prescribed next set. rs is the round the call names (may be nil).
+func (t *e2Trace) c07Shown(e *e2Ev, rs *e2RS, add func(uint64, string, string, ...any)) {
+	var phs []tmconsensus.ProposedHeader
+	switch e.Sub {
+	case "consider", "choose":
+		phs = t.strat.callPHs[e.ID]
+	default:
+		// EnterRound is handed the round view as the mirror sent it (informational: the strategy
+		// cannot vote from there); the votes are chosen in Consider/ChooseProposedBlock(s).
+		return
+	}
+	for _, ph := range phs {
+		if rs != nil {
+			if rs.shown == nil {
+				rs.shown = map[string]bool{}
+			}
+			rs.shown[string(ph.Header.Hash)] = true
+		}
+		t.judged["C07.header-shown-to-strategy"]++
+		h := ph.Header.Height
+		if !ph.Header.ValidatorSet.Equal(t.c07.vsetAt(h)) {
+			add(e.Seq, "C07:statemachine:strategy-given-header-with-other-validator-set:"+e.Sub,
+				"%s for %d/%d handed the strategy header %s whose ValidatorSet is not the set prescribed for height %d", e.Sub, e.H, e.R, e2hex(string(ph.Header.Hash)), h)
+		}
+		if !ph.Header.NextValidatorSet.Equal(t.c07.vsetAt(h + 1)) {
+			add(e.Seq, "C07:statemachine:strategy-given-header-with-other-next-validator-set:"+e.Sub,
+				"%s for %d/%d handed the strategy header %s whose NextValidatorSet is not the set prescribed for height %d", e.Sub, e.H, e.R, e2hex(string(ph.Header.Hash)), h+1)
+		}
+	}
+}
+
+// c07Withheld is the converse, judged at rest: a header naming exactly the prescribed sets (and
+// the right application state) that reached the machine while it was still waiting for a
+// proposal must have been handed to the strategy. A machine that works with another set than
+// the prescribed one filters every honest proposal out and never says so.
+// Judged only where the harness's observables determine that the machine was awaiting a
+// proposal when the header arrived: live round, no strategy answer and no proposal timeout
+// before, no view so far with one third or more precommit power, no held strategy call.
+func (t *e2Trace) c07Withheld(cur *e2RS, q *e2Ev, add func(uint64, string, string, ...any)) {
+	if cur.c07Reported || cur.resp != "vrv" || cur.hr.H == 0 {
+		return
+	}
+	if cur.firstOfInst && cur.inst > 1 {
+		// resumed after a restart: the machine may have voted in this round before
+		t.unjudged["C07.withheld.round-resumed-after-restart"]++
+		return
+	}
+	if cur.hr.H > t.initH && t.c07.invented[cur.hr.H-1] {
+		t.unjudged["C07.withheld.previous-height-invented"]++
+		return
+	}
+	if cur.holdOpen > 0 || cur.holdEndSeq != 0 {
+		t.unjudged["C07.withheld.held-strategy-call"]++
+		return
+	}
+	for _, ov := range cur.views {
+		if ov.acceptSeq == 0 || ov.acceptSeq > q.Seq || ov.v == nil || ov.v.JumpOnly {
+			continue
+		}
+		f := t.facts(ov.v)
+		if f.pcThird || f.pcTotalQ || f.pcQ != nil || f.pcAll {
+			return // from here on the machine need not look at proposals any more
+		}
+		if ov.offerSeq == ov.acceptSeq && f.pvQ != nil {
+			return // a round entered with a prevote quorum already visible starts by awaiting precommits
+		}
+		for _, s := range cur.pvAnswers {
+			if s < ov.acceptSeq {
+				return
+			}
+		}
+		if s, ok := cur.fired["proposal"]; ok && s < ov.acceptSeq {
+			return
+		}
+		if cur.jumpSeq != 0 && cur.jumpSeq <= ov.acceptSeq {
+			return
+		}
+		for _, hash := range ov.v.PHs {
+			b := t.c07.blocks[hash]
+			if b == nil || !b.acceptable || b.badVals || b.ph.Header.Height != cur.hr.H || b.ph.Round != cur.hr.R {
+				continue
+			}
+			t.judged["C07.withheld"]++
+			if !cur.shown[hash] {
+				cur.c07Reported = true
+				add(q.Seq, "C07:statemachine:header-with-prescribed-validator-sets-withheld-from-strategy",
+					"in %d/%d the view accepted at seq %d carried header %s, which names the validator sets prescribed for heights %d and %d and the right application state, while the machine was awaiting a proposal; at rest (seq %d) no ConsiderProposedBlocks or ChooseProposedBlock call of that round had been given it",
+					cur.hr.H, cur.hr.R, ov.acceptSeq, e2hex(hash), cur.hr.H, cur.hr.H+1, q.Seq)
+				return
+			}
+		}
+		if f.pvQ != nil || f.pvTotalQ {
+			return // this view ended the wait for a proposal (choose / prevote delay)
+		}
+	}
 }
